@@ -259,6 +259,192 @@ theorem wj_startF (unrecorded : Bool) (cfg : Cfg) (b0 : Bool)
 theorem wj_start (cfg : Cfg) (b0 : Bool) : WJ (WaitUntil.start cfg b0) (Legacy.start cfg b0) :=
   wj_startF false cfg b0 (fun h => absurd h (by simp))
 
+/-! ## legacy `task.wait_until` with an overall timeout -/
+
+/-- a return produced while handling a message carries the time of that message; if nothing is returned and a hold
+is pending afterwards, it was started now or was pending before -/
+theorem wu_onMsg_facts (cfg : Cfg) (w : WaitUntil.WState) (hr : w.ret = none) (t : Nat) (k : Kind) (a : Nat) :
+    (∀ r, (WaitUntil.onMsg cfg w t k a).ret = some r → r.1 = t) ∧
+      ((WaitUntil.onMsg cfg w t k a).ret = none → (WaitUntil.onMsg cfg w t k a).st.waiting = true →
+        (WaitUntil.onMsg cfg w t k a).st.trigTime = t ∨
+          (w.st.waiting = true ∧ (WaitUntil.onMsg cfg w t k a).st.trigTime = w.st.trigTime)) := by
+  obtain ⟨⟨wt, tt, inf, ft, rs⟩, ret⟩ := w
+  obtain ⟨cn, S, H⟩ := cfg
+  simp only at hr
+  subst hr
+  unfold WaitUntil.onMsg WaitUntil.holdFalseStep Legacy.holdStep
+  cases k with
+  | unrelated => simp; intro h; exact Or.inr h
+  | skip => simp; intro h; exact Or.inr h
+  | eval b =>
+    cases H with
+    | none => cases S <;> cases b <;> cases wt <;> simp
+    | some hf =>
+      cases ft with
+      | none => cases S <;> cases b <;> cases wt <;> simp
+      | some f =>
+        by_cases hts : t - f < hf <;> cases S <;> cases b <;> cases wt <;> simp [hts]
+
+theorem wu_onMsg_frozen (cfg : Cfg) (w : WaitUntil.WState) (r : Run) (hr : w.ret = some r) (t : Nat) (k : Kind)
+    (a : Nat) : WaitUntil.onMsg cfg w t k a = w := by
+  simp [WaitUntil.onMsg, hr]
+
+theorem wu_onTimeout_frozen (cfg : Cfg) (w : WaitUntil.WState) (r : Run) (hr : w.ret = some r) :
+    WaitUntil.onTimeout cfg w = w := by
+  simp [WaitUntil.onTimeout, hr]
+
+theorem wu_drive_frozen (cfg : Cfg) (hist : List Evt) :
+    ∀ (w : WaitUntil.WState) (r : Run), w.ret = some r → (WaitUntil.drive cfg w hist).ret = some r := by
+  induction hist with
+  | nil =>
+    intro w r hr
+    simp only [WaitUntil.drive]
+    split
+    · rw [wu_onTimeout_frozen cfg w r hr]; exact hr
+    · exact hr
+  | cons e es ih =>
+    intro w r hr
+    simp only [WaitUntil.drive]
+    apply ih
+    have h1 : (if Legacy.deadlineBefore cfg w.st e.t = true then WaitUntil.onTimeout cfg w else w) = w := by
+      split
+      · exact wu_onTimeout_frozen cfg w r hr
+      · rfl
+    rw [h1, wu_onMsg_frozen cfg w r hr]; exact hr
+
+/-- nothing is returned earlier than the pending deadline / the next message -/
+theorem wu_drive_ret_ge (cfg : Cfg) (hist : List Evt) :
+    ∀ (w : WaitUntil.WState) (m : Nat), w.ret = none → (∀ e ∈ hist, m ≤ e.t) →
+      (w.st.waiting = true → m ≤ w.st.trigTime + cfg.hold.getD 0) →
+      ∀ r, (WaitUntil.drive cfg w hist).ret = some r → m ≤ r.1 := by
+  induction hist with
+  | nil =>
+    intro w m hr _ hw r h
+    simp only [WaitUntil.drive] at h
+    by_cases hwt : w.st.waiting = true
+    · simp only [hwt, if_true, WaitUntil.onTimeout, hr] at h
+      have : r = (w.st.trigTime + cfg.hold.getD 0, w.st.info) := by simpa using h.symm
+      rw [this]; exact hw hwt
+    · simp only [hwt, Bool.false_eq_true, if_false] at h; rw [hr] at h; simp at h
+  | cons e es ih =>
+    intro w m hr hm hw r h
+    simp only [WaitUntil.drive] at h
+    have hme : m ≤ e.t := hm e (by simp)
+    generalize hw1 : (if Legacy.deadlineBefore cfg w.st e.t = true then WaitUntil.onTimeout cfg w else w) = w1 at h
+    by_cases hd : Legacy.deadlineBefore cfg w.st e.t = true
+    · -- the hold expires first: that is the return
+      have hwt : w.st.waiting = true := by
+        simp only [Legacy.deadlineBefore, Bool.and_eq_true] at hd; exact hd.1
+      have hret : w1.ret = some (w.st.trigTime + cfg.hold.getD 0, w.st.info) := by
+        rw [← hw1]; simp [hd, WaitUntil.onTimeout, hr]
+      rw [wu_onMsg_frozen cfg w1 _ hret, wu_drive_frozen cfg es w1 _ hret] at h
+      have : r = (w.st.trigTime + cfg.hold.getD 0, w.st.info) := by simpa using h.symm
+      rw [this]; exact hw hwt
+    · have hw1' : w1 = w := by rw [← hw1]; simp [hd]
+      subst hw1'
+      obtain ⟨f1, f2⟩ := wu_onMsg_facts cfg w1 hr e.t e.k e.a
+      cases hr2 : (WaitUntil.onMsg cfg w1 e.t e.k e.a).ret with
+      | some r2 =>
+        rw [wu_drive_frozen cfg es _ r2 hr2] at h
+        have : r = r2 := by simpa using h.symm
+        rw [this, f1 r2 hr2]; exact hme
+      | none =>
+        apply ih _ m hr2 (fun e' he' => hm e' (List.mem_cons_of_mem _ he')) _ r h
+        intro hwt2
+        rcases f2 hr2 hwt2 with h1 | ⟨h1, h2⟩
+        · rw [h1]; omega
+        · rw [h2]; exact hw h1
+
+/-- **the wake-up selection realises "first of"**: with an overall timeout `T` that coincides with no event, the
+legacy loop returns what it would return without timeout if that comes before `T`, and the timeout otherwise -/
+theorem driveT_eq (T : Nat) (cfg : Cfg) (hist : List Evt) :
+    ∀ (w : WaitUntil.WState), (∀ r, w.ret = some r → r.1 < T) → (∀ e ∈ hist, e.t ≠ T) →
+      hist.Pairwise (fun a b => a.t ≤ b.t) →
+      WaitUntil.driveT T cfg w hist = cutT T (WaitUntil.drive cfg w hist).ret := by
+  induction hist with
+  | nil =>
+    intro w hinv _ _
+    simp only [WaitUntil.driveT, WaitUntil.drive]
+    cases hr : w.ret with
+    | some r =>
+      have h1 : (if w.st.waiting = true then WaitUntil.onTimeout cfg w else w).ret = some r := by
+        split
+        · rw [wu_onTimeout_frozen cfg w r hr]; exact hr
+        · exact hr
+      simp [h1, cutT, hinv r hr]
+    | none =>
+      by_cases hwt : w.st.waiting = true
+      · by_cases hlt : w.st.trigTime + cfg.hold.getD 0 < T <;>
+          simp [WaitUntil.holdFirst, hwt, hlt, WaitUntil.onTimeout, hr, cutT]
+      · simp [WaitUntil.holdFirst, hwt, hr, cutT]
+  | cons e es ih =>
+    intro w hinv hne hs
+    have hs' := List.pairwise_cons.mp hs
+    simp only [WaitUntil.driveT]
+    cases hr : w.ret with
+    | some r =>
+      simp only
+      rw [wu_drive_frozen cfg (e :: es) w r hr]
+      simp [cutT, hinv r hr]
+    | none =>
+      simp only
+      by_cases hto : (decide (T < e.t) && !WaitUntil.holdFirst cfg w T) = true
+      · -- the overall timeout is the next wake-up
+        simp only [hto, if_true]
+        simp only [Bool.and_eq_true, decide_eq_true_eq, Bool.not_eq_true'] at hto
+        obtain ⟨hT, hhf⟩ := hto
+        have hge : ∀ r, (WaitUntil.drive cfg w (e :: es)).ret = some r → T ≤ r.1 := by
+          apply wu_drive_ret_ge cfg (e :: es) w T hr
+          · intro e' he'
+            rcases List.mem_cons.mp he' with rfl | h
+            · omega
+            · have := hs'.1 e' h; omega
+          · intro hwt
+            simp only [WaitUntil.holdFirst, hwt, Bool.true_and, decide_eq_false_iff_not] at hhf
+            omega
+        cases hd : (WaitUntil.drive cfg w (e :: es)).ret with
+        | none => simp [cutT]
+        | some r =>
+          have := hge r hd
+          have hn : ¬ (r.1 < T) := by omega
+          simp [cutT, hn]
+      · simp only [hto, Bool.false_eq_true, if_false, WaitUntil.drive]
+        apply ih _ _ (fun e' he' => hne e' (List.mem_cons_of_mem _ he')) hs'.2
+        -- whatever is returned in this iteration comes before T
+        intro r2 hr2
+        have hto' : ¬ (T < e.t) ∨ WaitUntil.holdFirst cfg w T = true := by
+          simp only [Bool.and_eq_true, decide_eq_true_eq, Bool.not_eq_true'] at hto
+          by_cases h1 : T < e.t
+          · right
+            cases h2 : WaitUntil.holdFirst cfg w T with
+            | true => rfl
+            | false => exact absurd ⟨h1, h2⟩ hto
+          · left; exact h1
+        have hneT : e.t ≠ T := hne e (by simp)
+        by_cases hd : Legacy.deadlineBefore cfg w.st e.t = true
+        · have hret : (WaitUntil.onTimeout cfg w).ret = some (w.st.trigTime + cfg.hold.getD 0, w.st.info) := by
+            simp [WaitUntil.onTimeout, hr]
+          simp only [hd, if_true] at hr2
+          rw [wu_onMsg_frozen cfg _ _ hret, hret] at hr2
+          have : r2 = (w.st.trigTime + cfg.hold.getD 0, w.st.info) := by simpa using hr2.symm
+          rw [this]
+          simp only [Legacy.deadlineBefore, Bool.and_eq_true, decide_eq_true_eq] at hd
+          rcases hto' with h1 | h1
+          · simp only; omega
+          · simp only [WaitUntil.holdFirst, Bool.and_eq_true, decide_eq_true_eq] at h1; exact h1.2
+        · simp only [hd, Bool.false_eq_true, if_false] at hr2
+          have := (wu_onMsg_facts cfg w hr e.t e.k e.a).1 r2 hr2
+          rw [this]
+          by_cases h3 : T < e.t
+          · exfalso
+            rcases hto' with h1 | h1
+            · exact h1 h3
+            · simp only [WaitUntil.holdFirst, Bool.and_eq_true, decide_eq_true_eq] at h1
+              apply hd
+              simp only [Legacy.deadlineBefore, Bool.and_eq_true, decide_eq_true_eq]
+              exact ⟨h1.1, by omega⟩
+          · omega
+
 /-! ## new subsystem (as it is now): `true_entered_at`/`last_func_args` ↔ `pending`, `false_entered_at` ↔ `falseSince` -/
 
 def nabs (st : NState) : SState :=
